@@ -77,7 +77,6 @@ func (h264dp *h264Depacketizer) Depacketize(packet *Packet) (err error) {
 
 func (h264dp *h264Depacketizer) depacketizeStapa(packet *Packet) (err error) {
 	payload := packet.Payload()
-	header := payload[0]
 
 	// 	0                   1                   2                   3
 	// 	0 1 2 3 4 5 6 7 8 9 0 1 2 3 4 5 6 7 8 9 0 1 2 3 4 5 6 7 8 9 0 1
@@ -115,7 +114,6 @@ func (h264dp *h264Depacketizer) depacketizeStapa(packet *Packet) (err error) {
 			Payload:   make([]byte, nalSize),
 		}
 		copy(frame.Payload, payload[off:])
-		frame.Payload[0] = 0 | (header & 0x60) | (frame.Payload[0] & 0x1F)
 		if err = h264dp.writeFrame(packet.Timestamp, frame); err != nil {
 			return
 		}
@@ -152,6 +150,8 @@ func (h264dp *h264Depacketizer) depacketizeFuA(packet *Packet) (err error) {
 
 	if (fuHeader>>7)&1 == 1 { // 第一个分片包
 		h264dp.fragments = h264dp.fragments[:0]
+	} else if len(h264dp.fragments) == 0 { // 起始分片已丢失，整个 NAL 丢弃
+		return
 	}
 	if len(h264dp.fragments) != 0 &&
 		h264dp.fragments[len(h264dp.fragments)-1].SequenceNumber != packet.SequenceNumber-1 {
